@@ -80,7 +80,7 @@ func (r *flowRun) flowMain(extra func(net *simnet.Net, eps []*endpoint)) {
 	}
 	g.wait("flow.main.join-clients")
 	// every opened channel's handler must have run to completion
-	simrt.WaitCond("flow.main.join-handlers", func() bool {
+	hWaitCond("flow.main.join-handlers", func() bool {
 		if r.plan.Faulty {
 			return r.active == 0
 		}
@@ -131,13 +131,13 @@ func (r *flowRun) teardown(srv mpx.Server, eps []*endpoint) {
 		ep.close()
 	}
 	simrt.Recv(0, srv.Stop())
-	simrt.WaitQuiescent("flow.teardown")
+	hWaitQuiescent("flow.teardown")
 	r.bg.Cancel()
-	simrt.WaitQuiescent("flow.teardown2")
+	hWaitQuiescent("flow.teardown2")
 	if r.plan.Faulty {
 		// let keep-alives, back-offs and dial timeouts run out, then nothing of the system may be left
-		simrt.Sleep(30 * time.Second)
-		simrt.WaitQuiescent("flow.teardown3")
+		hSleep(30 * time.Second)
+		hWaitQuiescent("flow.teardown3")
 		r.leaked = simrt.LiveTasks()
 	}
 }
